@@ -115,6 +115,7 @@ def run(pid, tier, seed, njobs=None):
            "outcomes": outcomes, "helper_joins": joins, "resize_generations_validated": sum(gens), "rejected": len(v["rejected"]),
            "consts": stamp_check(verdict),
            "tlc_trace_validation": {"states": v["states"], "distinct": v["distinct"], "wall_s": round(v["wall"], 1)}}
+    lib.add_spec_coverage(cov, pid, tier)
     rc = verdict.finish()
     lib.write_evidence(pid, tier, seed, "model_checking", cov, time.time() - t0, len(verdict.violations),
                        ["site events are emitted after the state change they report and before the thread's next yield point",
